@@ -113,7 +113,13 @@ func runSafety(c *Ctx, prefix string, fns []*ssa.Function, pred map[*ssa.Functio
 	}
 	for _, fn := range fns {
 		if singleSiteHelper(c, fn) {
-			if sites := c.P.CallersOf(fn); len(sites) == 1 && inScope[sites[0].Parent()] {
+			all := true
+			for _, site := range c.P.CallersOf(fn) {
+				if !inScope[site.Parent()] {
+					all = false
+				}
+			}
+			if all {
 				c.R.Functions[shortFn(fn)] = true
 				continue
 			}
@@ -1082,6 +1088,27 @@ func (sp *safetyPass) bounds(st *State, in ssa.Instruction, base, index, lo, hi 
 		sp.add("BOUNDS", kind, desc, in, Discharged, "table exception: "+why, st)
 		return
 	}
+	// the same construct reached through an inlined helper: rendered in the root's terms
+	{
+		var d2 string
+		b2 := ex.Canon(st, base).S
+		if index != nil {
+			d2 = b2 + "[" + ex.Canon(st, index).S + "]"
+		} else {
+			l, h := "", ""
+			if lo != nil {
+				l = ex.Canon(st, lo).S
+			}
+			if hi != nil {
+				h = ex.Canon(st, hi).S
+			}
+			d2 = b2 + "[" + l + ":" + h + "]"
+		}
+		if why, ok := boundsExceptions[sp.fn.String()+" "+stableKey(d2)]; ok && d2 != desc {
+			sp.add("BOUNDS", kind, desc, in, Discharged, "table exception: "+why, st)
+			return
+		}
+	}
 	lb, _ := sp.lenLowerBound(st, base, 0)
 	lenStr := "len(" + ex.Canon(st, ex.Resolve(st, base)).S + ")"
 	// proves 0 <= v and v (<|<=) len(base)
@@ -1349,8 +1376,14 @@ func balancedCall(s string) bool {
 // with exactly one first-party call site, which is a plain static call.
 func singleSiteHelper(c *Ctx, fn *ssa.Function) bool {
 	sites := c.P.CallersOf(fn)
-	if len(sites) != 1 || !inlinedEverywhere(c, fn) {
+	if len(sites) == 0 || !inlinedEverywhere(c, fn) {
 		return false
+	}
+	if len(sites) > 1 {
+		// a tiny straight-line helper shared by a few callers is cheap to duplicate
+		if len(sites) > 3 || len(fn.Blocks) > 6 || len(InfoOf(fn).LoopOf) > 0 {
+			return false
+		}
 	}
 	if fn.Signature.Recv() == nil && fn.Parent() != nil {
 		return false // closures
